@@ -405,7 +405,7 @@ def run(rep):
         if f['key'] in seen and f['key'] != 'memory-slots':
             continue
         seen.add(f['key'])
-        rep.violation(f['what'], f, True, key='py-mmtranslate:' + f['key'])
+        rep.violation(f['what'], f, not core.is_correspondence(f), key='py-mmtranslate:' + f['key'])
     if not ok and not findings:
         rep.violation('proof obligation used by C16 no longer checks: ' + json.dumps(detail)[:600], {'broken': detail}, False)
     return rep
